@@ -68,6 +68,11 @@ def body_factory(ctx):
         js = prior.sample(size=n_init, generate_linear=True, rng=np.random.default_rng(spec["init_seed"]))
         js = tj.JokerSamples(js.tbl, t_ref=data.t_ref if not isinstance(data, (list, tuple, dict)) else None,
                              poly_trend=prob.poly_trend, n_offsets=prob.n_offsets)
+        if spec["init_seed"] % 2:
+            # samples as returned with return_logprobs=True: the documented choice is still the median-period sample
+            g_ = np.random.default_rng(spec["init_seed"])
+            js["ln_prior"] = g_.normal(size=n_init)
+            js["ln_likelihood"] = 10 * g_.normal(size=n_init)
         joker = tj.TheJoker(prior, rng=np.random.default_rng(0))
         with ctx.sut("setup_mcmc"):
             with prior.model:
